@@ -140,10 +140,15 @@ class History(object):
         if os.path.exists(log):
             os.unlink(log)
         name = 'ref%d' % self.idx
+        fault = log + '.fault'
+        if os.path.exists(fault):
+            os.unlink(fault)
         env.factory.add_generic_solver(
-            name, [PY, REFSOLVER, '--log', log, '--name', name],
+            name, [PY, REFSOLVER, '--log', log, '--name', name,
+                   '--fault', fault],
             list(L.PYSMT_LOGICS))
         frames = [[]]
+        nrefused = 0
         model_valid = False
         last_model = None
         ok = True
@@ -155,6 +160,10 @@ class History(object):
                 ops = ['assert', 'assert', 'assert', 'solve', 'solve',
                        'push1', 'push2', 'is_sat', 'is_valid', 'is_unsat',
                        'reset', 'push0', 'pop0']
+                if self.idx % 3 == 2 and nrefused < 1:
+                    # (once per history: every new symbol doubles the
+                    # reference solver's enumeration)
+                    ops += ['refused_then_retry'] * 2
                 if depth >= 1:
                     ops += ['pop1', 'pop1']
                 if depth >= 2:
@@ -176,6 +185,37 @@ class History(object):
                     # pySMT asserts the simplified formula (documented in
                     # add_assertion): the live assertions, and hence the
                     # symbols a model must cover, are the simplified ones
+                    frames[-1].append(B.describe(f.simplify()))
+                    model_valid = False
+                elif op == 'refused_then_retry':
+                    # the solver refuses one command of an add_assertion
+                    # (a legal reply to any command); the caller asserts
+                    # the same formula again: the stream must stay legal
+                    import json
+                    nrefused += 1
+                    mgr = env.formula_manager
+                    news = [mgr.Symbol('rf%d_%d' % (nrefused, i))
+                            for i in range(2)]
+                    f = mgr.Or(news[0], mgr.Not(news[1]))
+                    head, skip = [('declare-fun', 0), ('declare-fun', 1),
+                                  ('assert', 0)][(self.idx // 3) % 3]
+                    with open(fault, 'w') as ff:
+                        json.dump({'head': head, 'skip': skip, 'reply':
+                                   ['unsupported', '(error "refused")'][
+                                       (self.idx // 9) % 2]}, ff)
+                    self.trace[-1] = ('refused_then_retry', head, skip)
+                    try:
+                        solver.add_assertion(f)
+                        raised = False
+                    except Exception:
+                        raised = True
+                    fired = not os.path.exists(fault)
+                    if not fired:
+                        os.unlink(fault)
+                    rep.count('refused_commands' if fired else
+                              'refusal_not_reached')
+                    if raised:
+                        solver.add_assertion(f)
                     frames[-1].append(B.describe(f.simplify()))
                     model_valid = False
                 elif op in ('push0', 'pop0'):
@@ -349,10 +389,11 @@ class History(object):
                 break
         if not entries:
             rep.count('empty_logs')
-        try:
-            os.unlink(log)
-        except OSError:
-            pass
+        for pth in (log, log + '.fault'):
+            try:
+                os.unlink(pth)
+            except OSError:
+                pass
         rep.case(key=('h', rep.shard, self.idx),
                  sample=str(self.trace[:10]) if self.idx % 37 == 0 else None)
         return ok
